@@ -133,6 +133,29 @@ pub fn run(a: &Args) {
     }
     for p in [0usize, 1, 9, 10, 4096, usize::MAX] { let s = p.to_string(); if s.is_empty() || !s.chars().all(|c| c.is_ascii_digit()) || s.parse::<usize>() != Ok(p) { st.fail(format!("[C16 oracle] usize {p} Display/FromStr"), format!("usize {p}")); } }
     if "".parse::<usize>().is_ok() || "".parse::<f32>().is_ok() { st.fail("[C16 oracle] the empty string parses".into(), "empty".into()); }
+    // the 8-byte wire forms of the shape LFS emits (digits '.' digits LETTER digits, NUL-padded when shorter than 8): the version an IS_VER
+    // frame carries is the version its text parses to - every character of the field counts, the eighth included
+    {
+        use crate::wire::{decode_buf, Dec};
+        let mut texts: Vec<String> = vec![];
+        for major in ["0", "1", "12", "123"] { for minor in ["6", "7", "12", "345"] { for letter in ["F", "W", "a", "z"] { for rev in ["", "0", "1", "12", "123", "1234", "12345"] {
+            let t = format!("{major}.{minor}{letter}{rev}"); if t.len() <= 8 { texts.push(t); }
+        } } } }
+        for t in ["0.7F", "0.6W1234", "99999999", "0.123456", "1234567A", "0.7F0000", "1.2B3456", ".1234567"] { texts.push(t.to_string()); }
+        let nfull = texts.iter().filter(|t| t.len() == 8).count();
+        for t in &texts { for compressed in [true, false] {
+            st.evaluations += 1; st.bump(if t.len() == 8 { "wire forms:8 bytes" } else { "wire forms:shorter" });
+            let mut f = vec![if compressed { 5 } else { 20 }, 2, 0, 0]; let mut v = t.as_bytes().to_vec(); v.resize(8, 0); f.extend(v); f.extend_from_slice(b"DEMO\0\0"); f.push(9); f.push(0);
+            let id = format!("verframe {} {}", if compressed { "C" } else { "U" }, t);
+            match (GameVersion::from_str(t), decode_buf(compressed, &f)) {
+                (Ok(want), Dec::Got(insim::Packet::Ver(v), _)) => if v.version != want { st.fail(format!("[C16] an IS_VER frame whose version field is {t:?} carries {:?}, but the text parses to {:?}", v.version, want), id); },
+                (Ok(_), d) => st.fail(format!("[C16] an IS_VER frame whose version field is the valid text {t:?} is not decoded: {}", crate::wire::cls_string(&d)), id),
+                (Err(_), Dec::Got(insim::Packet::Ver(v), _)) => st.fail(format!("[C16] the version field {t:?} does not parse as a version but the frame decodes to {:?}", v.version), id),
+                (Err(_), _) => {},
+            }
+        } }
+        st.notes.push(format!("IS_VER wire forms: {} texts, {nfull} of them filling all 8 bytes", texts.len()));
+    }
     st.rule = "real GameVersion FromStr / Display / Ord under catch_unwind: exhaustive over a class alphabet up to a bounded length, known versions and edge texts, random strings; oracle per string: printed form of a finite parsed version re-parses equal, letter upper-case ASCII, case-flipped text parses identically; order axioms + lexicographic specification on random pairs / triples of parsed versions; the std oracles of the Coq model (is_numeric on ASCII, f32 Display shape / round trip / order = bit order, usize round trip) on sampled (quick) or all (thorough) non-negative f32; non-trivial = parses successfully".into();
     st.sample("gv 0.7e15 -> ok <bits of 0.7> 69 15".into());
     out.finish(&st);
